@@ -40,7 +40,9 @@ def gen_op(rng, force_adjacent=False):
         k = rng.random()
         if k < 0.3 and not force_adjacent:
             return dict(base, op='geom', gi=P(), how=rng.choice(['src_add', 'src_add', 'src_remove', 'src_remove_many', 'src_remove_many',
-                                                                 'src_data', 'attr', 'revertex', 'revertex']),
+                                                                 'src_data', 'attr', 'revertex', 'revertex', 'src_inplace', 'src_inplace',
+                                                                 'prim_convert', 'prim_convert']),
+                        mode=rng.choice(['elem', 'elem', 'slice', 'mul', 'add']),
                         front=rng.random() < 0.5, some=rng.random() < 0.5, n=rng.choice([2, 2, 3, 5]))
         return dict(base, op='geom', gi=P(), how='prim_' + how, kind=rng.choice([None, 'triangles', 'polylist', 'polygons', 'lines']))
     if level == 'node_tr':
@@ -120,8 +122,8 @@ def gen_case(rng, maxlen, files_fraction=0.2):
     if rng.random() < 0.35:
         at = rng.randint(0, len(ops))
         ops[at:at] = gen_cycle(rng)
-    if base['kind'] != 'gen' or base.get('split') is not None:
-        # loaded documents: removal edits (every optional value of one object, or of all objects, goes
+    if True:
+        # removal edits (every optional value of one object, or of all objects, goes
         # away), before or after an intermediate save
         if rng.random() < 0.5:
             un = {'op': 'attr', 'what': 'unset', 'all': rng.random() < 0.6, 'r': rng.randrange(1 << 30),
@@ -137,6 +139,18 @@ def gen_case(rng, maxlen, files_fraction=0.2):
         if rng.random() < 0.5:
             seq.append({'op': rng.choice(['save', 'write'])})
         seq.append(dict(b(), op='ref', how='rename_target', all=rng.random() < 0.5))
+        at = rng.randint(0, len(ops))
+        ops[at:at] = seq
+    if rng.random() < 0.3:
+        # values changed IN PLACE between two saves (the array object stays the same), and primitives
+        # replaced by the library's own conversions, on one geometry or on all of them
+        b = lambda: {'r': rng.randrange(1 << 30), 'pos': rng.randrange(64), 'pos2': 0, 'pos3': 0, 'n': rng.choice([1, 2, 3]),
+                     'gi': rng.randrange(64), 'all': rng.random() < 0.5, 'kind': None}
+        seq = [{'op': 'save'}]
+        for _ in range(rng.choice([1, 1, 2])):
+            seq.append(dict(b(), op='geom', how=rng.choice(['src_inplace', 'src_inplace', 'prim_convert']),
+                            mode=rng.choice(['elem', 'elem', 'slice', 'mul', 'add'])))
+            seq.append({'op': rng.choice(['save', 'write'])})
         at = rng.randint(0, len(ops))
         ops[at:at] = seq
     if base['kind'] in ('xmldoc', 'file') and rng.random() < 0.5:
@@ -265,7 +279,7 @@ def run(ctx):
     quick = ctx.quick()
     cases = corpus_cases()
     ncorpus = len(cases)
-    nrand = 1200 if quick else 4000
+    nrand = 1000 if quick else 4000
     for _ in range(nrand):
         cases.append(gen_case(ctx.rng, 12 if quick else 40))
     exh = list(exhaustive_cases(2, 5) if quick else exhaustive_cases(4, 6))
